@@ -771,5 +771,46 @@ example : ([true, false] ∈ ((⟨fun _ _ => 0, fun _ => 0, fun _ => 0⟩ : RBM 
   refine ⟨?_, rfl⟩
   simp [RBM.gibbsStepsB, Prog.iter, RBM.gibbsStepB, Prog.flipMat, Prog.flipVec, Prog.bind, Prog.paths]
 
+/-- **C05_call_contents.** WHAT the calls of `C05_call_shapes` present and return, on EVERY complete execution path of one batched
+pass (`flatM` = the tensor flattened row-major, the recorder's order): the first `torch.bernoulli` call is handed the `B × h`
+hidden conditionals of the CURRENT visible batch, [the second the `B × a` auxiliary conditionals of the same batch,] the last the
+`B × n` visible conditionals given exactly the bits DRAWN by the preceding call(s), and the state the pass returns is exactly the
+matrix of the bits drawn by the last call — nothing is drawn twice, dropped or reordered. And the executions of `k+1` passes are
+the executions of one pass followed by the executions of `k` passes from the state that pass returned (for `k = 0`: no draw at
+all), so this describes every call of `gibbs_steps(k)`. -/
+theorem C05_call_contents (r : RBM ℝ n h) (q : PRBM ℝ n h a) {B : ℕ} (vs : Fin B → Fin n → Bool) (k : ℕ) :
+    (∀ x ∈ (r.gibbsStepB vs).paths, ∃ hs : Fin B → Fin h → Bool,
+        x.2.1 = flatM (fun b => r.probH (bvec (vs b))) ++ flatM (fun b => r.probV (bvec (hs b)))
+        ∧ x.2.2 = flatM hs ++ flatM x.1)
+    ∧ (∀ x ∈ (q.gibbsStepB vs).paths, ∃ (hs : Fin B → Fin h → Bool) (as : Fin B → Fin a → Bool),
+        x.2.1 = flatM (fun b => q.probH (bvec (vs b))) ++ (flatM (fun b => q.probA (bvec (vs b)))
+                  ++ flatM (fun b => q.probV (bvec (hs b)) (bvec (as b))))
+        ∧ x.2.2 = flatM hs ++ (flatM as ++ flatM x.1))
+    ∧ (r.gibbsStepsB 0 vs).paths = [(vs, [], [])] ∧ (q.gibbsStepsB 0 vs).paths = [(vs, [], [])]
+    ∧ (r.gibbsStepsB (k + 1) vs).paths = (r.gibbsStepB vs).paths.flatMap (fun x =>
+        (r.gibbsStepsB k x.1).paths.map fun y => (y.1, x.2.1 ++ y.2.1, x.2.2 ++ y.2.2))
+    ∧ (q.gibbsStepsB (k + 1) vs).paths = (q.gibbsStepB vs).paths.flatMap (fun x =>
+        (q.gibbsStepsB k x.1).paths.map fun y => (y.1, x.2.1 ++ y.2.1, x.2.2 ++ y.2.2)) := by
+  refine ⟨?_, ?_, rfl, rfl, paths_bind _ _, paths_bind _ _⟩
+  · intro x hx
+    simp only [RBM.gibbsStepB, paths_bind, List.mem_flatMap, List.mem_map] at hx
+    obtain ⟨y, hy, z, hz, rfl⟩ := hx
+    refine ⟨y.1, ?_, ?_⟩
+    · simp only [(paths_flipMat _ _ _ y hy).1, (paths_flipMat _ _ _ z hz).1]
+    · simp only [(paths_flipMat _ _ _ y hy).2, (paths_flipMat _ _ _ z hz).2]
+  · intro x hx
+    simp only [PRBM.gibbsStepB, paths_bind, List.mem_flatMap, List.mem_map] at hx
+    obtain ⟨y, hy, _, ⟨w, hw, z, hz, rfl⟩, rfl⟩ := hx
+    refine ⟨y.1, w.1, ?_, ?_⟩
+    · simp only [(paths_flipMat _ _ _ y hy).1, (paths_flipMat _ _ _ w hw).1, (paths_flipMat _ _ _ z hz).1]
+    · simp only [(paths_flipMat _ _ _ y hy).2, (paths_flipMat _ _ _ w hw).2, (paths_flipMat _ _ _ z hz).2]
+
+/-- `C05_call_contents` on a concrete execution: 2 chains of a 1-visible / 1-hidden `BinaryRBM` with zero parameters (all
+conditionals `σ(0)`), hidden draws `(1,0)`, visible draws `(0,1)`: the pass returns the batch `[[0],[1]]`. -/
+example : ∃ x ∈ ((⟨fun _ _ => 0, fun _ => 0, fun _ => 0⟩ : RBM ℝ 1 1).gibbsStepB (B := 2) (fun _ _ => false)).paths,
+    x.2.2 = [true, false, false, true] ∧ flatM x.1 = [false, true] := by
+  simp [RBM.gibbsStepB, Prog.flipMat, Prog.flipVec, Prog.bind, Prog.paths, flatM, List.ofFn_succ]
+  rfl
+
 end C05
 end QV.Props
